@@ -30,8 +30,8 @@ import (
 // KillSpec is one createkill world.
 type KillSpec struct {
 	Seed   uint64      `json:"seed"`
-	Plans  []StorePlan `json:"plans"` // the last one is the target; the others are in the store already
-	Op     string      `json:"op"`    // create | delete
+	Plans  []StorePlan `json:"plans"`            // the last one is the target; the others are in the store already
+	Op     string      `json:"op"`               // create | delete
 	Inject string      `json:"inject,omitempty"` // "" (count only) | kill | ENOSPC | EIO
 	Call   string      `json:"call,omitempty"`   // pwrite64 | fsync
 	When   int         `json:"when,omitempty"`   // n-th call of that kind counted from process start
